@@ -137,3 +137,15 @@ Theorem C02_index_dtype_refines : forall (l : list val) (probes : list (key val)
   M_index_dtype val_eqb vto_Z l l probes = S_index val_eqb l probes.
 Proof. exact v_index_dtype_refines. Qed.
 Print Assumptions C02_index_dtype_refines.
+
+(* IndexHierarchy.level_drop(1) (labels of the second depth concatenated into a new root, grand-children
+   kept as they are) on an index with ONE outermost group: the result is well formed and its lookups are
+   exactly the positions in the table of the labels without their first component.  (Two or more
+   groups: the kept offsets are wrong, Refuted/C02_level_drop_offsets.v.) *)
+Theorem C02_level_drop_single_group : forall (d : nat) (o : Z) (k : val) (t : level val),
+  lwf val d t -> match t with LNode _ _ [] => False | _ => True end ->
+  exists t', M_level_drop1 val_eqb (LNode o [k] [t]) = Ok t' /\ lwf val d t' /\ flatten t' = flatten t /\
+             (forall key pos, leaf_loc val_eqb key t' pos =
+                match lindex_of val_eqb key (flatten t) with Some i => Ok (pos + i) | None => Err "KeyError" end).
+Proof. exact v_level_drop1_single_group. Qed.
+Print Assumptions C02_level_drop_single_group.
